@@ -248,3 +248,37 @@ def run_looptype(ctx):
         else:
             res.bad("looptype:exec-yields-void", "Loop::exec builds %s as its value" % vs, lb.where())
     return res
+
+
+def run_slicetype(ctx):
+    """C09 / C01: a slice is a sequence of the same kind as the sliced value."""
+    res = RuleResult("R-SLICETYPE", "Slicing::return_type is the sliced operand's type: it does not pass through an element-extracting "
+                                    "Type query (element_type / index_result / iter_element), while `s[i]` (at) does")
+    lib = ctx.facts.lib
+    from ..owners import for_crate
+    rt = "<instruction::slicing::Slicing as variable::r#type::ReturnType>::return_type"
+    b = lib.body(rt)
+    if res.anchor(b is not None, rt):
+        callees = {c.callee for hb in for_crate(lib).members(rt) for c in hb.calls}
+        extract = sorted(x for x in callees if x.rsplit("::", 1)[-1] in ("element_type", "index_result", "iter_element", "mut_element_type", "tuple_element_at"))
+        lhs = [c for c in b.calls if c.path.endswith("ReturnType::return_type")]
+        if extract:
+            res.bad("slicetype:return_type", "Slicing::return_type derives the slice's type with %s: a slice of [T] is typed T, so `a[1:] + 1` is "
+                                             "accepted and panics while `a[1:] + [9]` is rejected" % ", ".join(extract), b.where())
+        elif lhs:
+            res.ok("slicetype:return_type", b.where(), "type of the sliced operand, unchanged")
+        else:
+            res.bad("slicetype:return_type", "Slicing::return_type no longer derives from the sliced operand's type", b.where())
+    bo = lib.body("<instruction::bin_op::BinOperation as variable::r#type::ReturnType>::return_type")
+    if res.anchor(bo is not None, "BinOperation::return_type"):
+        sws = enum_switches(bo, "bin_operator::BinOperator")
+        ok = False
+        for sw in sws:
+            t = sw["arms"].get("At")
+            if t is not None and any(c.callee.endswith("::index_result") for c in calls_in(bo, arm_region(bo, t))):
+                ok = True
+        if ok:
+            res.ok("slicetype:at-uses-index_result", bo.where(), "`s[i]` is typed with index_result (the element)")
+        else:
+            res.bad("slicetype:at-uses-index_result", "BinOperator::At is no longer typed with Type::index_result", bo.where())
+    return res
